@@ -14,14 +14,16 @@
    compares what tlparser.ParseSchema and tlgen make of it with the definitions and with Xlate. *)
 EXTENDS Integers, Sequences, FiniteSets, TLC, Json
 
-Types == <<"Foo", "ns.Item", "Baz", "Color">>
+Types == <<"Foo", "ns.Item", "Baz", "MsgInfo", "Color">>
 CtorPool == ("Foo" :> <<"foo", "fooEmpty", "fooBig">>) @@ ("ns.Item" :> <<"ns.item", "ns.itemOne", "ns.itemTwo">>)
-            @@ ("Baz" :> <<"bazSingle", "bazOther">>) @@ ("Color" :> <<"colorRed", "colorGreen", "colorBlue">>)
+            @@ ("Baz" :> <<"bazSingle", "bazOther">>)
+            \* a constructor that equals its type only after the name mangling (snake case), as bad_msg_notification = BadMsgNotification
+            @@ ("MsgInfo" :> <<"msg_info", "msgInfoNew">>) @@ ("Color" :> <<"colorRed", "colorGreen", "colorBlue">>)
 FuncPool == <<"getFoo", "ns.getItems", "checkBaz", "listNumbers", "ns.setColor", "doNothing">>
 \* names that need mangling (snake case, acronyms), a Go keyword, the name of a package the generated
 \* code uses, identifiers of the generated method body
 ParamNames == <<"id", "user_id", "type", "api_url", "errors", "ok", "title", "c", "big_number", "data">>
-Bases == {"int", "long", "double", "string", "bytes", "Bool", "Foo", "ns.Item", "Baz", "Color"}
+Bases == {"int", "long", "double", "string", "bytes", "Bool", "Foo", "ns.Item", "Baz", "MsgInfo", "Color"}
 CONSTANT BitsU          \* the flag bits of this run, a subset of 0..31 (the check rotates it over all bits)
 ASSUME BitsU \subseteq 0..31
 MaxParams == 7      \* tlgen passes up to 5 parameters positionally, more through a params struct
@@ -124,6 +126,6 @@ Next ==
   \/ (\E w \in 0..MaxParams : StartCtor(w)) \/ FinishCtor \/ NextPhase \/ SkipType \/ FinishFunc \/ Emit \/ AddFlagsWord
   \/ \E b \in Bases, v \in BOOLEAN, bit \in {-1} \cup BitsU : AddParam(b, v, bit)
   \/ \E bit \in BitsU : AddTrueFlag(bit)
-  \/ \E r \in {"Foo", "ns.Item", "Baz", "Color", "Bool", "int"}, rv \in BOOLEAN : \E w \in 0..MaxParams : (r = "Bool" => ~rv) /\ (r = "int" => rv) /\ StartFunc(r, rv, w)
+  \/ \E r \in {"Foo", "ns.Item", "Baz", "MsgInfo", "Color", "Bool", "int"}, rv \in BOOLEAN : \E w \in 0..MaxParams : (r = "int" => rv) /\ StartFunc(r, rv, w)
 Spec == Init /\ [][Next]_vars
 =============================================================================
